@@ -43,6 +43,8 @@ type c09Cfg struct {
 	PanicSink bool `json:"panicking_neighbour_sink,omitempty"`
 	// NestedKey: the grouping column is the nested path d.x (selected AS k); the key value sits one level down in the row
 	NestedKey bool `json:"nested_path_key,omitempty"`
+	// BigNum: float64 key values that differ only beyond float32 precision (ids decoded from JSON), next to a text key
+	BigNum bool `json:"float64_keys_beyond_float32,omitempty"`
 }
 
 func c09Opts(cfg c09Cfg) detOpts {
@@ -89,6 +91,7 @@ func c09Configs(tier string) []c09Cfg {
 		out = append(out, c09Cfg{N: n, Cols: 1, Eager: true, MaxL: maxL - 1, Stats: true})
 		out = append(out, c09Cfg{N: n, Cols: 1, Eager: false, MaxL: maxL - 1, PanicSink: true})
 		out = append(out, c09Cfg{N: n, Cols: 1, Eager: true, MaxL: maxL - 1, NestedKey: true})
+		out = append(out, c09Cfg{N: n, Cols: 1, Eager: true, MaxL: maxL - 1, BigNum: true})
 	}
 	return out
 }
@@ -118,6 +121,7 @@ func growthStrings(maxL, k int, f func([]int)) {
 var c09Keys1 = []Row{{"k": "a"}, {"k": "b"}, {"k": "c"}}
 var c09Keys2 = []Row{{"k": "a", "k2": "x"}, {"k": "a", "k2": "y"}, {"k": "b", "k2": "x"}}
 var c09KeysMixed = []Row{{"k": "7"}, {"k": 7}, {"k": "b"}}
+var c09KeysBig = []Row{{"k": 100000001.0}, {"k": 100000002.0}, {"k": 1234567.891}}
 var c09KeysSparse = []Row{{"k": "a", "k2": "a"}, {"k": "a"}, {"k2": "a"}}
 
 // c09InScope: with a STATETTL the property only speaks about runs in which no key is reaped, i.e. no
@@ -161,6 +165,9 @@ func c09SQL(cfg c09Cfg) string {
 func c09Keys(cfg c09Cfg) []Row {
 	if cfg.Mixed {
 		return c09KeysMixed
+	}
+	if cfg.BigNum {
+		return c09KeysBig
 	}
 	if cfg.Sparse {
 		return c09KeysSparse
